@@ -87,6 +87,30 @@ fn kf13_second_encode_differs() {
 }
 
 #[test]
+fn kf13b_second_encode_moves_the_start_function() {
+    // self.start is overwritten with the remapped index; the second encode maps it again
+    let w = wat::parse_str(r#"(module (func $a) (func $b) (func $c) (start $a))"#).unwrap();
+    let mut m = Module::parse(&w, false).unwrap();
+    let ty = m.types.add_func_type(&[], &[], None);
+    m.add_import_func("e".into(), "imp".into(), ty);
+    let first = m.encode();
+    let second = m.encode();
+    assert_eq!(print(&first), print(&second));
+}
+
+#[test]
+fn kf13c_second_encode_moves_ref_func_in_global_initialiser() {
+    // InitInstr::fix_id_mapping rewrites the stored initialiser in place
+    let w = wat::parse_str(r#"(module (func $a) (func $b) (func $c) (global funcref (ref.func $a)) (elem declare func $a))"#).unwrap();
+    let mut m = Module::parse(&w, false).unwrap();
+    let ty = m.types.add_func_type(&[], &[], None);
+    m.add_import_func("e".into(), "imp".into(), ty);
+    let first = m.encode();
+    let second = m.encode();
+    assert_eq!(print(&first), print(&second));
+}
+
+#[test]
 fn kf16_branch_flag_is_never_reset() {
     // loop { block $B { if (p0) { br $B  <- semantic-after probe } } ; p0 = 0 ; br_if loop (once) }
     let w = wat::parse_str(r#"(module (func (param i32) (local i32)
